@@ -338,9 +338,8 @@ Lemma enqueue_inv : forall st r h, Inv st -> s_lock st = Some h -> rget (q_id r)
 Proof.
   intros st r h (HC & I2 & I3 & I4) Hl Hg Hnh Hnotin. unfold Inv. cbn [s_seq s_reqs s_lock s_lockq]. split4.
   - apply core_push; [| |exact Hnotin].
-    + apply core_rset with (r := r); cbn [q_id q_stage with_stage]; try assumption; try reflexivity.
-      * intros _. reflexivity.
-      * intros E. discriminate.
+    + apply core_rset with (r := r); cbn [q_id q_stage with_stage];
+        [exact HC | exact Hg | reflexivity | intros _; reflexivity | intros E; discriminate].
     + exists (with_stage r RLock). split; [exact (rget_rset_same (with_stage r RLock) _) | reflexivity].
   - intros h' Hh'. destruct (I2 h' Hh') as [rh [Hrh Hhold]]. exists rh. split; [|exact Hhold].
     rewrite rget_rset_other; [exact Hrh|]. cbn [q_id with_stage]. intros E; subst h'.
@@ -538,4 +537,469 @@ Proof.
     destruct (rget id (s_reqs st)) as [r|] eqn:Hg; [|exact HI].
     pose proof (rget_id _ _ _ Hg) as Hid.
     apply end_req_inv; [exact HI | rewrite Hid; exact Hg].
+Qed.
+
+(* ================================================================================================== *)
+(* Part 3: frame lemmas (valid in every state)                                                        *)
+(* ================================================================================================== *)
+
+Definition is_cmd (id : N) (x : sout) : Prop := x = XSetup id \/ exists k d t, x = XSendCmd id k d t.
+
+(* a lock operation only moves a request to another stage, and never to RConfirm *)
+Definition chg (r r' : req) : Prop :=
+  r' = with_stage r (q_stage r') /\
+  (q_stage r' = q_stage r \/ holding (q_stage r') = true \/ q_stage r' = RLock).
+
+Lemma chg_refl : forall r, chg r r.
+Proof. intros r. split; [symmetry; apply with_stage_self | left; reflexivity]. Qed.
+
+Lemma chg_with_stage : forall r s, holding s = true \/ s = RLock -> chg r (with_stage r s).
+Proof. intros r s H. split; [reflexivity | right; exact H]. Qed.
+
+Lemma let_pair_eta : forall (p : sstate * list sout), (let '(a, b) := p in (a, b)) = p.
+Proof. intros [a b]. reflexivity. Qed.
+
+Lemma begin_attempt_spec : forall r, exists s, fst (begin_attempt r) = with_stage r s /\ holding s = true /\
+  forall x, In x (snd (begin_attempt r)) -> is_cmd (q_id r) x.
+Proof.
+  intros r. unfold begin_attempt. destruct (0 <? q_setup r); cbn [fst snd].
+  - exists (RSetup (q_setup r)). split; [reflexivity|]. split; [reflexivity|].
+    intros x [Hx|[]]. left. symmetry. exact Hx.
+  - exists RSend. split; [reflexivity|]. split; [reflexivity|].
+    intros x [Hx|[]]. right. exists (q_kind r), (q_dst r), (q_tag r). symmetry. exact Hx.
+Qed.
+
+Lemma want_lock_frame : forall st r,
+  s_seq (fst (want_lock st r)) = s_seq st /\
+  (exists s, s_reqs (fst (want_lock st r)) = rset (with_stage r s) (s_reqs st) /\ (holding s = true \/ s = RLock)) /\
+  (forall x, In x (snd (want_lock st r)) -> s_lock (fst (want_lock st r)) = Some (q_id r) /\ is_cmd (q_id r) x) /\
+  (s_lock st = None -> s_lockq (fst (want_lock st r)) = s_lockq st /\ s_lock (fst (want_lock st r)) = Some (q_id r)) /\
+  incl (s_lockq (fst (want_lock st r))) (s_lockq st ++ [q_id r]).
+Proof.
+  intros st r. unfold want_lock. destruct (s_lock st) as [h|] eqn:Hl.
+  - cbn [fst snd s_seq s_reqs s_lock s_lockq]. split; [reflexivity|]. split.
+    + exists RLock. split; [reflexivity | right; reflexivity].
+    + split; [intros x []|]. split; [discriminate | apply incl_refl].
+  - destruct (begin_attempt_spec r) as (s & Hs & Hh & Ho). destruct (begin_attempt r) as [r1 o].
+    cbn [fst snd] in *. subst r1. cbn [fst snd s_seq s_reqs s_lock s_lockq]. split; [reflexivity|]. split.
+    + exists s. split; [reflexivity | left; exact Hh].
+    + split; [intros x Hx; split; [reflexivity | exact (Ho x Hx)]|].
+      split; [intros _; split; reflexivity | apply incl_appl, incl_refl].
+Qed.
+
+Lemma want_lock_rget : forall st r id r', rget id (s_reqs (fst (want_lock st r))) = Some r' ->
+  (id = q_id r /\ chg r r') \/ (id <> q_id r /\ rget id (s_reqs st) = Some r').
+Proof.
+  intros st r id r' H. destruct (want_lock_frame st r) as (_ & (s & Hr & Hs) & _).
+  rewrite Hr, rget_rset in H. cbn [q_id with_stage] in H. destruct (N.eqb_spec id (q_id r)) as [E|E].
+  - left. split; [exact E|]. injection H as <-. apply chg_with_stage. exact Hs.
+  - right. split; assumption.
+Qed.
+
+Lemma release_lock_frame : forall fuel st,
+  s_seq (fst (release_lock fuel st)) = s_seq st /\
+  incl (s_lockq (fst (release_lock fuel st))) (s_lockq st) /\
+  (forall id r', rget id (s_reqs (fst (release_lock fuel st))) = Some r' ->
+     exists r, rget id (s_reqs st) = Some r /\ chg r r') /\
+  (forall x, In x (snd (release_lock fuel st)) ->
+     exists h, s_lock (fst (release_lock fuel st)) = Some h /\ is_cmd h x).
+Proof.
+  induction fuel as [|fuel IH]; intros st.
+  - cbn [release_lock fst snd]. split; [reflexivity|]. split; [apply incl_refl|]. split.
+    + intros id r' H. exists r'. split; [exact H | apply chg_refl].
+    + intros x [].
+  - cbn [release_lock]. destruct (s_lockq st) as [|id q] eqn:Hq.
+    + cbn [fst snd s_seq s_reqs s_lock s_lockq]. split; [reflexivity|]. split; [apply incl_refl|]. split.
+      * intros id r' H. exists r'. split; [exact H | apply chg_refl].
+      * intros x [].
+    + destruct (rget id (s_reqs st)) as [r|] eqn:Hr.
+      * match goal with |- context [want_lock ?s r] => set (st1 := s) end.
+        destruct (want_lock_frame st1 r) as (W1 & _ & W3 & W4 & _).
+        destruct (W4 eq_refl) as [W5 W6]. split; [exact W1|]. split.
+        { rewrite W5. subst st1. cbn [s_lockq]. apply incl_tl, incl_refl. }
+        split.
+        { intros id2 r' H. apply want_lock_rget in H. destruct H as [[E Hc]|[E H]].
+          - exists r. split; [|exact Hc]. subst id2. rewrite (rget_id _ _ _ Hr). exact Hr.
+          - exists r'. split; [exact H | apply chg_refl]. }
+        { intros x Hx. exists (q_id r). exact (W3 x Hx). }
+      * match goal with |- context [release_lock fuel ?s] => destruct (IH s) as (R1 & R2 & R3 & R4) end.
+        cbn [s_seq s_reqs s_lock s_lockq] in *. split; [exact R1|]. split; [apply incl_tl; exact R2|].
+        split; [exact R3 | exact R4].
+Qed.
+
+Lemma end_req_frame : forall st r res,
+  s_seq (fst (end_req st r res)) = s_seq st /\
+  incl (s_lockq (fst (end_req st r res))) (filter (fun x => negb (x =? q_id r)) (s_lockq st)) /\
+  (forall id r', rget id (s_reqs (fst (end_req st r res))) = Some r' ->
+     exists r0, rget id (rdel (q_id r) (s_reqs st)) = Some r0 /\ chg r0 r') /\
+  In (XDone (q_id r) res) (snd (end_req st r res)) /\
+  (forall x, In x (snd (end_req st r res)) ->
+     x = XDone (q_id r) res \/ exists h, s_lock (fst (end_req st r res)) = Some h /\ is_cmd h x).
+Proof.
+  intros st r res. unfold end_req. destruct (holds st (q_id r)).
+  - unfold unlock. match goal with |- context [release_lock ?f ?s] =>
+      destruct (release_lock_frame f s) as (R1 & R2 & R3 & R4); destruct (release_lock f s) as [st2 o] end.
+    cbn [fst snd s_seq s_reqs s_lock s_lockq] in *. split; [exact R1|]. split; [exact R2|]. split; [exact R3|].
+    split; [left; reflexivity|]. intros x [Hx|Hx]; [left; symmetry; exact Hx | right; exact (R4 x Hx)].
+  - cbn [fst snd s_seq s_reqs s_lock s_lockq]. split; [reflexivity|]. split; [apply incl_refl|]. split.
+    + intros id r' H. exists r'. split; [exact H | apply chg_refl].
+    + split; [left; reflexivity|]. intros x [Hx|[]]. left. symmetry. exact Hx.
+Qed.
+
+Lemma unlock_frame : forall st,
+  s_seq (fst (unlock st)) = s_seq st /\
+  incl (s_lockq (fst (unlock st))) (s_lockq st) /\
+  (forall id r', rget id (s_reqs (fst (unlock st))) = Some r' -> exists r, rget id (s_reqs st) = Some r /\ chg r r') /\
+  (forall x, In x (snd (unlock st)) -> exists h, s_lock (fst (unlock st)) = Some h /\ is_cmd h x).
+Proof. intros st. unfold unlock. apply release_lock_frame. Qed.
+
+Lemma is_cmd_not_done : forall h id o, is_cmd h (XDone id o) -> False.
+Proof. intros h id o [H|[k [d [t H]]]]; discriminate. Qed.
+
+(* when a request ends nothing of it remains *)
+Lemma end_req_clean : forall st r res, NoDup (map q_id (s_reqs st)) ->
+  rget (q_id r) (s_reqs (fst (end_req st r res))) = None /\ ~ In (q_id r) (s_lockq (fst (end_req st r res))).
+Proof.
+  intros st r res Hnd. destruct (end_req_frame st r res) as (_ & F2 & F3 & _). split.
+  - destruct (rget (q_id r) (s_reqs (fst (end_req st r res)))) as [r'|] eqn:H; [|reflexivity].
+    destruct (F3 _ _ H) as [r0 [H0 _]]. rewrite rget_rdel_same in H0 by exact Hnd. discriminate.
+  - intros Hin. apply F2 in Hin. exact (filter_neq_notin _ _ Hin).
+Qed.
+
+Lemma end_req_rget : forall st r res id r', NoDup (map q_id (s_reqs st)) ->
+  rget id (s_reqs (fst (end_req st r res))) = Some r' ->
+  id <> q_id r /\ exists r0, rget id (s_reqs st) = Some r0 /\ chg r0 r'.
+Proof.
+  intros st r res id r' Hnd H. destruct (end_req_frame st r res) as (_ & _ & F3 & _).
+  destruct (F3 _ _ H) as [r0 [H0 Hc]]. apply rget_rdel_Some in H0; [|exact Hnd]. destruct H0 as [Hne H0].
+  split; [exact Hne|]. exists r0. split; assumption.
+Qed.
+
+(* how one step may change a request: kind and (destination, tag) never change; the confirmation is
+   only ever set by a confirmation for this (destination, tag); the stage RConfirm is only entered from
+   RSend by an accepted enqueue *)
+Definition evolves (e : sevent) (id : N) (r r' : req) : Prop :=
+  q_kind r' = q_kind r /\ dt r' = dt r /\
+  (q_confirmed r' = q_confirmed r \/
+   (q_confirmed r = None /\ exists ok, q_confirmed r' = Some ok /\ e = SConfirm (q_dst r) (q_tag r) ok)) /\
+  (q_stage r' = RConfirm -> q_stage r = RConfirm \/ (q_stage r = RSend /\ e = SReply id EnqOk)).
+
+Lemma evolves_chg : forall e id r x r', evolves e id r x -> chg x r' -> evolves e id r r'.
+Proof.
+  intros e id r x r' (E1 & E2 & E3 & E4) [C1 C2]. rewrite C1. unfold evolves, dt in *.
+  cbn [q_kind q_dst q_tag q_confirmed q_stage with_stage]. split; [exact E1|]. split; [exact E2|].
+  split; [exact E3|]. intros Hs. apply E4. destruct C2 as [C2|[C2|C2]].
+  - rewrite <- C2. exact Hs.
+  - rewrite Hs in C2. discriminate.
+  - rewrite Hs in C2. discriminate.
+Qed.
+
+Lemma evolves_refl : forall e id r, evolves e id r r.
+Proof. intros e id r. split; [reflexivity|]. split; [reflexivity|]. split; [left; reflexivity | intros H; left; exact H]. Qed.
+
+Lemma chg_evolves : forall e id r r', chg r r' -> evolves e id r r'.
+Proof. intros e id r r' H. exact (evolves_chg e id r r r' (evolves_refl e id r) H). Qed.
+
+Lemma sstep_frame : forall st e id r', NoDup (map q_id (s_reqs st)) ->
+  (forall i k d n, e = SSend i k d n -> rget i (s_reqs st) = None) ->
+  rget id (s_reqs (fst (sstep st e))) = Some r' ->
+  (rget id (s_reqs st) = None /\ (exists k d n, e = SSend id k d n) /\ q_confirmed r' = None /\ q_stage r' <> RConfirm)
+  \/ exists r, rget id (s_reqs st) = Some r /\ evolves e id r r'.
+Proof.
+  intros st e id r' Hnd Hfresh H.
+  assert (Hsame : forall r, rget id (s_reqs st) = Some r -> chg r r' ->
+            exists r0, rget id (s_reqs st) = Some r0 /\ evolves e id r0 r').
+  { intros r Hr Hc. exists r. split; [exact Hr | apply chg_evolves; exact Hc]. }
+  destruct e as [i k dst nsetup | i res | dst tag ok | i | i]; cbn [sstep] in H.
+  - (* SSend *)
+    pose proof (Hfresh i k dst nsetup eq_refl) as Hnone.
+    destruct (rfind_tag dst ((s_seq st + 1) mod 256) (s_reqs st)) as [r0|] eqn:Hf.
+    + cbn [fst s_reqs] in H. right. exact (Hsame r' H (chg_refl r')).
+    + apply want_lock_rget in H. unfold set_reqs in H. cbn [q_id s_seq s_reqs s_lock s_lockq] in H.
+      destruct H as [[E Hc]|[E H]].
+      * left. subst id. split; [exact Hnone|]. split; [exists k, dst, nsetup; reflexivity|].
+        destruct Hc as [C1 C2]. rewrite C1. cbn [q_confirmed q_stage with_stage]. split; [reflexivity|].
+        intros Hs. cbn [q_stage] in C2. rewrite Hs in C2. destruct C2 as [C2|[C2|C2]]; discriminate.
+      * right. match type of H with rget id (_ ++ [?x]) = _ => rewrite <- (rset_notin x) in H by exact Hnone;
+          rewrite rget_rset_other in H by exact E end.
+        exact (Hsame r' H (chg_refl r')).
+  - (* SReply *)
+    right. destruct (rget i (s_reqs st)) as [r|] eqn:Hg; [|exact (Hsame r' H (chg_refl r'))].
+    pose proof (rget_id _ _ _ Hg) as Hid.
+    destruct (q_stage r) eqn:Hs; try exact (Hsame r' H (chg_refl r')).
+    + (* RSetup *)
+      destruct (1 <? nleft); cbn [fst set_reqs s_reqs] in H; rewrite rget_rset in H;
+        cbn [q_id with_stage] in H; (destruct (N.eqb_spec id (q_id r)) as [E|E];
+        [ injection H as <-; exists r; split; [rewrite E, Hid; exact Hg|]; apply chg_evolves; apply chg_with_stage;
+          left; reflexivity
+        | exact (Hsame r' H (chg_refl r')) ]).
+    + (* RSend *)
+      assert (Hend : forall res0, rget id (s_reqs (fst (end_req st r res0))) = Some r' ->
+                exists r0, rget id (s_reqs st) = Some r0 /\ evolves (SReply i res) id r0 r').
+      { intros res0 H0. apply end_req_rget in H0; [|exact Hnd]. destruct H0 as [_ [r0 [H0 Hc]]].
+        exact (Hsame r0 H0 Hc). }
+      destruct res.
+      * destruct (q_kind r) eqn:Hk; try exact (Hend _ H).
+        destruct (q_confirmed r) eqn:Hc; [exact (Hend _ H)|].
+        rewrite let_pair_eta in H. destruct (unlock_frame (set_reqs st (rset (with_stage r RConfirm) (s_reqs st))))
+          as (_ & _ & U3 & _). destruct (U3 _ _ H) as [x [Hx Hcx]]. cbn [set_reqs s_reqs] in Hx.
+        rewrite rget_rset in Hx. cbn [q_id with_stage] in Hx. destruct (N.eqb_spec id (q_id r)) as [E|E].
+        { injection Hx as <-. exists r. split; [rewrite E, Hid; exact Hg|].
+          apply evolves_chg with (x := with_stage r RConfirm); [|exact Hcx].
+          split; [reflexivity|]. split; [reflexivity|]. split; [left; reflexivity|].
+          intros _. right. split; [exact Hs|]. rewrite E, Hid. reflexivity. }
+        { exact (Hsame x Hx Hcx). }
+      * match type of H with context [unlock ?s] => destruct (unlock_frame s) as (_ & _ & U3 & _) end.
+        destruct (U3 _ _ H) as [x [Hx Hcx]]. cbn [set_reqs s_reqs] in Hx.
+        rewrite rget_rset in Hx. cbn [q_id] in Hx. destruct (N.eqb_spec id (q_id r)) as [E|E].
+        { injection Hx as <-. exists r. split; [rewrite E, Hid; exact Hg|].
+          eapply evolves_chg; [|exact Hcx].
+          split; [reflexivity|]. split; [reflexivity|]. split; [left; reflexivity|].
+          cbn [q_stage]. intros Hx; discriminate. }
+        { exact (Hsame x Hx Hcx). }
+      * exact (Hend _ H).
+  - (* SConfirm *)
+    right. destruct (rfind_tag dst tag (s_reqs st)) as [r|] eqn:Hf; [|exact (Hsame r' H (chg_refl r'))].
+    destruct (q_confirmed r) eqn:Hc; [exact (Hsame r' H (chg_refl r'))|].
+    destruct (rfind_tag_spec _ _ _ _ Hf) as (Hin & Hd & Ht).
+    assert (Hg : rget (q_id r) (s_reqs st) = Some r) by (apply In_rget; assumption).
+    destruct (q_stage r) eqn:Hs;
+      try (cbn [fst set_reqs s_reqs] in H; rewrite rget_rset in H; cbn [q_id] in H;
+           destruct (N.eqb_spec id (q_id r)) as [E|E];
+           [ injection H as <-; exists r; split; [rewrite E; exact Hg|];
+             split; [reflexivity|]; split; [reflexivity|]; split;
+             [right; split; [exact Hc|]; exists ok; split; [reflexivity | rewrite Hd, Ht; reflexivity]
+             | cbn [q_stage]; intros Hx; discriminate]
+           | exact (Hsame r' H (chg_refl r')) ]).
+    rewrite (end_req_rset st _ r) in H by reflexivity.
+    apply end_req_rget in H; [|exact Hnd]. destruct H as [_ [r0 [H0 Hc0]]]. exact (Hsame r0 H0 Hc0).
+  - (* STimer *)
+    right. destruct (rget i (s_reqs st)) as [r|] eqn:Hg; [|exact (Hsame r' H (chg_refl r'))].
+    pose proof (rget_id _ _ _ Hg) as Hid.
+    assert (Hend : forall res0, rget id (s_reqs (fst (end_req st r res0))) = Some r' ->
+              exists r0, rget id (s_reqs st) = Some r0 /\ evolves (STimer i) id r0 r').
+    { intros res0 H0. apply end_req_rget in H0; [|exact Hnd]. destruct H0 as [_ [r0 [H0 Hc]]].
+      exact (Hsame r0 H0 Hc). }
+    destruct (q_stage r) eqn:Hs; try exact (Hsame r' H (chg_refl r')); try exact (Hend _ H).
+    destruct (q_attempt r <? nretries); [|exact (Hend _ H)].
+    apply want_lock_rget in H. destruct H as [[E Hc]|[E H]].
+    + apply (Hsame r); [rewrite E, Hid; exact Hg | exact Hc].
+    + exact (Hsame r' H (chg_refl r')).
+  - (* SCancel *)
+    right. destruct (rget i (s_reqs st)) as [r|] eqn:Hg; [|exact (Hsame r' H (chg_refl r'))].
+    apply end_req_rget in H; [|exact Hnd]. destruct H as [_ [r0 [H0 Hc]]]. exact (Hsame r0 H0 Hc).
+Qed.
+
+(* ================================================================================================== *)
+(* Part 4: reachable states satisfy the invariant                                                     *)
+(* ================================================================================================== *)
+
+Lemma NoDup_app_l : forall (A : Type) (l l' : list A), NoDup (l ++ l') -> NoDup l.
+Proof.
+  intros A l l'; induction l as [|a l IH]; intros H; [constructor|].
+  cbn in H. inversion H as [|x xs Hnotin Hnd]; subst. constructor; [|exact (IH Hnd)].
+  intros Hin. apply Hnotin. apply in_or_app. left. exact Hin.
+Qed.
+
+Lemma srun_app_fst : forall es es' st, fst (srun st (es ++ es')) = fst (srun (fst (srun st es)) es').
+Proof.
+  induction es as [|a es IH]; intros es' st; cbn [app srun]; [reflexivity|].
+  destruct (sstep st a) as [st1 o]. specialize (IH es' st1).
+  destruct (srun st1 (es ++ es')) as [s2 os2]. destruct (srun st1 es) as [s3 os3]. cbn [fst] in *. exact IH.
+Qed.
+
+Lemma sfinal_snoc : forall es e, sfinal (es ++ [e]) = fst (sstep (sfinal es) e).
+Proof.
+  intros es e. unfold sfinal. rewrite srun_app_fst. cbn [srun].
+  destruct (sstep (fst (srun s_init es)) e) as [st1 o]. reflexivity.
+Qed.
+
+Lemma send_ids_app : forall es es', send_ids (es ++ es') = send_ids es ++ send_ids es'.
+Proof. intros es es'. unfold send_ids. apply flat_map_app. Qed.
+
+Lemma sends_unique_prefix : forall es es', sends_unique (es ++ es') -> sends_unique es.
+Proof. intros es es' H. unfold sends_unique in *. rewrite send_ids_app in H. exact (NoDup_app_l _ _ _ H). Qed.
+
+Lemma inv_init : Inv s_init.
+Proof.
+  unfold Inv, s_init, Core. cbn [s_seq s_reqs s_lock s_lockq map rget]. split4.
+  - split5; try constructor.
+    + intros id [].
+    + intros id r H. discriminate.
+  - discriminate.
+  - intros id r H. discriminate.
+  - reflexivity.
+Qed.
+
+(* the invariant, and: the ids of the requests in progress are ids of past SSend events *)
+Lemma sfinal_inv : forall es, sends_unique es ->
+  Inv (sfinal es) /\ forall id, rget id (s_reqs (sfinal es)) <> None -> In id (send_ids es).
+Proof.
+  induction es as [|e es IH] using rev_ind; intros Hu.
+  - split; [exact inv_init|]. intros id H. exfalso. apply H. reflexivity.
+  - destruct (IH (sends_unique_prefix _ _ Hu)) as [HI Hids]. rewrite sfinal_snoc.
+    assert (Hfresh : forall i k d n, e = SSend i k d n -> rget i (s_reqs (sfinal es)) = None).
+    { intros i k d n ->. destruct (rget i (s_reqs (sfinal es))) as [r0|] eqn:E; [|reflexivity]. exfalso.
+      unfold sends_unique in Hu. rewrite send_ids_app in Hu. cbn in Hu. apply NoDup_remove_2 in Hu.
+      rewrite app_nil_r in Hu. apply Hu, Hids. rewrite E. discriminate. }
+    split; [apply sstep_inv; assumption|].
+    intros id H. rewrite send_ids_app. apply in_or_app.
+    destruct (rget id (s_reqs (fst (sstep (sfinal es) e)))) as [r'|] eqn:E; [|exfalso; apply H; reflexivity].
+    destruct (sstep_frame _ _ _ _ (proj1 (proj1 HI)) Hfresh E) as [(_ & (k & d & n & ->) & _)|[r0 [H0 _]]].
+    + right. cbn. left. reflexivity.
+    + left. apply Hids. rewrite H0. discriminate.
+Qed.
+
+Lemma reachable_inv : forall st, reachable st -> Inv st.
+Proof. intros st [es [Hu ->]]. exact (proj1 (sfinal_inv es Hu)). Qed.
+
+Lemma reachable_step : forall es e, sends_unique (es ++ [e]) ->
+  Inv (sfinal es) /\ forall i k d n, e = SSend i k d n -> rget i (s_reqs (sfinal es)) = None.
+Proof.
+  intros es e Hu. destruct (sfinal_inv es (sends_unique_prefix _ _ Hu)) as [HI Hids]. split; [exact HI|].
+  intros i k d n ->. destruct (rget i (s_reqs (sfinal es))) as [r0|] eqn:E; [|reflexivity]. exfalso.
+  unfold sends_unique in Hu. rewrite send_ids_app in Hu. cbn in Hu. apply NoDup_remove_2 in Hu.
+  rewrite app_nil_r in Hu. apply Hu, Hids. rewrite E. discriminate.
+Qed.
+
+(* ================================================================================================== *)
+(* Part 5: the C12 theorems                                                                           *)
+(* ================================================================================================== *)
+
+Lemma done_in_end_req : forall st r res id o, In (XDone id o) (snd (end_req st r res)) -> id = q_id r /\ o = res.
+Proof.
+  intros st r res id o H. destruct (end_req_frame st r res) as (_ & _ & _ & _ & F5).
+  destruct (F5 _ H) as [E|[h [_ Hc]]]; [injection E as -> ->; split; reflexivity|].
+  exfalso. exact (is_cmd_not_done _ _ _ Hc).
+Qed.
+
+Lemma done_in_unlock : forall st id o, In (XDone id o) (snd (unlock st)) -> False.
+Proof.
+  intros st id o H. destruct (unlock_frame st) as (_ & _ & _ & U4). destruct (U4 _ H) as [h [_ Hc]].
+  exact (is_cmd_not_done _ _ _ Hc).
+Qed.
+
+Lemma done_in_want_lock : forall st r id o, In (XDone id o) (snd (want_lock st r)) -> False.
+Proof.
+  intros st r id o H. destruct (want_lock_frame st r) as (_ & _ & W3 & _). destruct (W3 _ H) as [_ Hc].
+  exact (is_cmd_not_done _ _ _ Hc).
+Qed.
+
+Lemma ok_needs_own_confirmation_st : forall st e id, NoDup (map q_id (s_reqs st)) ->
+  In (XDone id ResOk) (snd (sstep st e)) ->
+  forall r, rget id (s_reqs st) = Some r -> q_kind r = Unicast ->
+  (e = SReply id EnqOk /\ q_confirmed r = Some true /\ q_stage r = RSend)
+  \/ (e = SConfirm (q_dst r) (q_tag r) true /\ q_stage r = RConfirm).
+Proof.
+  intros st e id Hnd H r Hg Hk.
+  destruct e as [i k dst nsetup | i res | dst tag ok | i | i]; cbn [sstep] in H.
+  - exfalso. destruct (rfind_tag dst ((s_seq st + 1) mod 256) (s_reqs st)).
+    + destruct H as [H|[]]. discriminate.
+    + exact (done_in_want_lock _ _ _ _ H).
+  - destruct (rget i (s_reqs st)) as [r1|] eqn:Hg1; [|destruct H].
+    pose proof (rget_id _ _ _ Hg1) as Hid1.
+    destruct (q_stage r1) eqn:Hs; try (destruct H; fail).
+    + exfalso. destruct (1 <? nleft); destruct H as [H|[]]; discriminate.
+    + destruct res.
+      * destruct (q_kind r1) eqn:Hk1.
+        { destruct (q_confirmed r1) as [b|] eqn:Hc.
+          - apply done_in_end_req in H. destruct H as [E1 E2]. rewrite Hid1 in E1. subst i.
+            rewrite Hg in Hg1. injection Hg1 as <-. left. split; [reflexivity|]. split; [|exact Hs].
+            destruct b; [exact Hc | discriminate].
+          - exfalso. rewrite let_pair_eta in H. exact (done_in_unlock _ _ _ H). }
+        { exfalso. apply done_in_end_req in H. destruct H as [E1 _]. rewrite Hid1 in E1. subst i.
+          rewrite Hg in Hg1. injection Hg1 as <-. rewrite Hk in Hk1. discriminate. }
+        { exfalso. apply done_in_end_req in H. destruct H as [E1 _]. rewrite Hid1 in E1. subst i.
+          rewrite Hg in Hg1. injection Hg1 as <-. rewrite Hk in Hk1. discriminate. }
+      * exfalso. exact (done_in_unlock _ _ _ H).
+      * exfalso. apply done_in_end_req in H. destruct H as [_ E2]. discriminate.
+  - destruct (rfind_tag dst tag (s_reqs st)) as [r1|] eqn:Hf; [|destruct H as [H|[]]; discriminate].
+    destruct (q_confirmed r1) eqn:Hc; [destruct H as [H|[]]; discriminate|].
+    destruct (rfind_tag_spec _ _ _ _ Hf) as (Hin & Hd & Ht).
+    destruct (q_stage r1) eqn:Hs; try (destruct H; fail).
+    apply done_in_end_req in H. cbn [q_id] in H. destruct H as [E1 E2]. right.
+    pose proof (In_rget _ _ Hnd Hin) as Hg1. rewrite <- E1, Hg in Hg1. injection Hg1 as <-.
+    split; [|exact Hs]. rewrite Hd, Ht. destruct ok; [reflexivity | discriminate].
+  - exfalso. destruct (rget i (s_reqs st)) as [r1|] eqn:Hg1; [|destruct H].
+    destruct (q_stage r1) eqn:Hs; try (destruct H; fail).
+    + destruct (q_attempt r1 <? nretries).
+      * exact (done_in_want_lock _ _ _ _ H).
+      * apply done_in_end_req in H. destruct H as [_ E2]. discriminate.
+    + apply done_in_end_req in H. destruct H as [_ E2]. discriminate.
+  - exfalso. destruct (rget i (s_reqs st)) as [r1|] eqn:Hg1; [|destruct H].
+    apply done_in_end_req in H. destruct H as [_ E2]. discriminate.
+Qed.
+
+Theorem ok_needs_own_confirmation : forall es e id, sends_unique es ->
+  In (XDone id ResOk) (snd (sstep (sfinal es) e)) ->
+  forall r, rget id (s_reqs (sfinal es)) = Some r -> q_kind r = Unicast ->
+  (e = SReply id EnqOk /\ q_confirmed r = Some true /\ q_stage r = RSend)
+  \/ (e = SConfirm (q_dst r) (q_tag r) true /\ q_stage r = RConfirm).
+Proof.
+  intros es e id Hu. apply ok_needs_own_confirmation_st.
+  exact (proj1 (proj1 (proj1 (sfinal_inv es Hu)))).
+Qed.
+
+Theorem confirm_stage_means_accepted : forall st id, reachable st ->
+  forall r, rget id (s_reqs st) = Some r -> q_stage r = RConfirm -> q_kind r = Unicast /\ q_confirmed r = None.
+Proof.
+  intros st id Hr r Hg Hs. destruct (reachable_inv st Hr) as ((_ & _ & _ & _ & C5) & _). exact (C5 id r Hg Hs).
+Qed.
+
+Theorem refused_raises : forall st id r, rget id (s_reqs st) = Some r -> q_stage r = RSend ->
+  In (XDone id ResDeliveryError) (snd (sstep st (SReply id EnqRefused))).
+Proof.
+  intros st id r Hg Hs. cbn [sstep]. rewrite Hg, Hs. rewrite <- (rget_id _ _ _ Hg).
+  exact (proj1 (proj2 (proj2 (proj2 (end_req_frame st r ResDeliveryError))))).
+Qed.
+
+Theorem confirmed_failure_raises : forall st r, rfind_tag (q_dst r) (q_tag r) (s_reqs st) = Some r ->
+  q_stage r = RConfirm -> q_confirmed r = None ->
+  In (XDone (q_id r) ResDeliveryError) (snd (sstep st (SConfirm (q_dst r) (q_tag r) false))).
+Proof.
+  intros st r Hf Hs Hc. cbn [sstep]. rewrite Hf, Hc, Hs.
+  match goal with |- In _ (snd (end_req ?s ?x ?res)) =>
+    exact (proj1 (proj2 (proj2 (proj2 (end_req_frame s x res))))) end.
+Qed.
+
+Theorem no_confirmation_times_out : forall st id r, rget id (s_reqs st) = Some r -> q_stage r = RConfirm ->
+  In (XDone id ResTimeout) (snd (sstep st (STimer id))).
+Proof.
+  intros st id r Hg Hs. cbn [sstep]. rewrite Hg, Hs. rewrite <- (rget_id _ _ _ Hg).
+  exact (proj1 (proj2 (proj2 (proj2 (end_req_frame st r ResTimeout))))).
+Qed.
+
+Theorem busy_retries : forall st id r, rget id (s_reqs st) = Some r -> q_stage r = RBackoff ->
+  (q_attempt r <? nretries = true -> ~ In (XDone id ResDeliveryError) (snd (sstep st (STimer id)))
+                                     /\ exists r', rget id (s_reqs (fst (sstep st (STimer id)))) = Some r'
+                                                   /\ q_attempt r' = q_attempt r) /\
+  (q_attempt r <? nretries = false -> In (XDone id ResDeliveryError) (snd (sstep st (STimer id)))).
+Proof.
+  intros st id r Hg Hs. cbn [sstep]. rewrite Hg, Hs. pose proof (rget_id _ _ _ Hg) as Hid. split; intros Hlt; rewrite Hlt.
+  - split; [intros H; exact (done_in_want_lock _ _ _ _ H)|].
+    destruct (want_lock_frame st r) as (_ & (s & Hr & _) & _). exists (with_stage r s). rewrite Hr, <- Hid.
+    split; [exact (rget_rset_same (with_stage r s) _) | reflexivity].
+  - rewrite <- Hid. exact (proj1 (proj2 (proj2 (proj2 (end_req_frame st r ResDeliveryError))))).
+Qed.
+
+Theorem busy_statuses :
+  maps_to_unified "MAX_MESSAGE_LIMIT_REACHED" "ZIGBEE_MAX_MESSAGE_LIMIT_REACHED" /\
+  maps_to_unified "NETWORK_BUSY" "ZIGBEE_MAX_MESSAGE_LIMIT_REACHED" /\
+  maps_to_unified "NO_BUFFERS" "ALLOCATION_FAILED".
+Proof. vm_compute. repeat split. Qed.
+
+Theorem foreign_confirm : forall st dst tag ok,
+  rfind_tag dst tag (s_reqs st) = None -> sstep st (SConfirm dst tag ok) = (st, [XUnexpected]).
+Proof. intros st dst tag ok H. cbn [sstep]. rewrite H. reflexivity. Qed.
+
+Theorem confirm_touches_only_its_request : forall st dst tag ok id o,
+  In (XDone id o) (snd (sstep st (SConfirm dst tag ok))) ->
+  exists r, rfind_tag dst tag (s_reqs st) = Some r /\ q_id r = id.
+Proof.
+  intros st dst tag ok id o H. cbn [sstep] in H.
+  destruct (rfind_tag dst tag (s_reqs st)) as [r|] eqn:Hf; [|destruct H as [H|[]]; discriminate].
+  exists r. split; [reflexivity|].
+  destruct (q_confirmed r) eqn:Hc; [destruct H as [H|[]]; discriminate|].
+  destruct (q_stage r) eqn:Hs; try (destruct H; fail).
+  apply done_in_end_req in H. destruct H as [E _]. symmetry. exact E.
 Qed.
